@@ -151,12 +151,14 @@ Definition infer_version (continuation : bool) (prev : rrv) (vi : vinfo) : rrv :
   then V112
   else if continuation && match prev with V_unset => false | _ => true end then prev
   else if opt_is (vi_sf_len vi) 12 then V110 else V109.
-(* the repaired inference (fix 2755ef8): entries without an RR record are 1.10 *)
-Definition infer_version2 (continuation : bool) (prev : rrv) (vi : vinfo) (has_rr : bool) : rrv :=
+(* the repaired inference (fixes 2755ef8 and its follow-up): entries without an RR record are 1.10; an RR record found in
+   the continuation area (self.ce_entries.rr_record) makes a 1.10 record 1.09 *)
+Definition infer_version2 (continuation : bool) (prev : rrv) (vi : vinfo) (has_rr has_ce_rr : bool) : rrv :=
   if opt_is (vi_px_len vi) 44 || opt_is (vi_sf_len vi) 21 || vi_has_es vi
      || match vi_er_id vi with Some i => zlist_eqb i EXT_ID_112 | None => false end
   then V112
-  else if continuation && match prev with V_unset => false | _ => true end then prev
+  else if continuation && match prev with V_unset => false | _ => true end
+       then match prev with V110 => if has_ce_rr then V109 else prev | _ => prev end
   else if opt_is (vi_sf_len vi) 12 || negb has_rr then V110 else V109.
 
 (* RockRidge.parse(record, is_first_dir_record_of_root, bytes_to_skip, continuation, _) on an object
@@ -166,8 +168,8 @@ Definition rr_parse (record : list Z) (first : bool) (skip : Z) (continuation : 
   let '(dr, ce, prev) := st in
   match parse_su first skip (if continuation then dr else ce) (if continuation then ce else dr) record with
   | Some (cur, vi) =>
-      Some (if continuation then (dr, cur, infer_version2 continuation prev vi (is_some (rr_record dr) || is_some (rr_record cur)))
-            else (cur, ce, infer_version2 continuation prev vi (is_some (rr_record cur) || is_some (rr_record ce))))
+      Some (if continuation then (dr, cur, infer_version2 continuation prev vi (is_some (rr_record dr) || is_some (rr_record cur)) (is_some (rr_record cur)))
+            else (cur, ce, infer_version2 continuation prev vi (is_some (rr_record cur) || is_some (rr_record ce)) (is_some (rr_record ce))))
   | None => None
   end.
 
